@@ -108,7 +108,7 @@ func genSeries(t *rapid.T, u *universe) series {
 // batch: several points of one series); rarely a big batch sharing one tag value so that one tag->ids row of
 // the index overflows (mergeindex.MaxTSIDsPerRow = 64) and is split/merged.
 func genBatch(t *rapid.T, u *universe, m *model) ([]series, bool) {
-	if rapid.IntRange(0, 79).Draw(t, "big") == 0 {
+	if rapid.IntRange(0, 29).Draw(t, "big") == 0 {
 		n := rapid.IntRange(66, 140).Draw(t, "bign")
 		base := genSeries(t, u)
 		var out []series
